@@ -4,26 +4,22 @@ import PyxelModel.Generated.C12
 
 ## Guards
 
-Every validated detector field has up to two guards in the code: the `if <test>: raise ValueError` of the
-constructor (`Geometry.__init__`, `Characteristics.__init__`, `Environment.__init__`,
-`APDCharacteristics.__init__`) and the one of the property setter.  `harness/gen/c12.py` translates each
-`<test>` (Python `ast`) into a `Cond` — **re-extracted from `/repo` on every run** into
-`Generated/C12.lean` — with the test's exact shape (the syntax types `Cmp`, `Term`, `Cond`, `Entry` are declared in the generated file, which cannot import this one):
-
-| Python | `Cond` |
-|---|---|
-| `lo <= x <= hi`, `0.0 < x <= 1000.0` | `chain (const lo) le x le (const hi)` |
-| `x <= 0`, `value > 0.0`, `np.min(value) < 0.0` | `cmp x le (const 0)` … (`np.min/np.max` of a scalar is the scalar) |
-| `not t`, `a and b`, `a or b` | `not`, `and`, `or` |
-| `x and not (…)` (truthiness) | `and truthy (not …)` |
-| `x is not None and …` | `and notNone …` |
-| `isinstance(x, int | float) and …` | `and isNumber …` |
-| nested `if a: if b: raise` | `and a b`;  no guard at all | `ff` |
+Every validated detector / calibration setting is guarded on two paths: the constructor (`Geometry.__init__`,
+`Characteristics.__init__`, `Environment.__init__`, `APDCharacteristics.__init__`, `Calibration.__init__`,
+`Algorithm.__init__`) and the property setter.  `harness/gen/c12.py` **observes** both on every run: the fields are
+the constructor parameters that have a setter (public signatures), the candidate breakpoints are all numeric
+literals of the class's module and all numbers quoted in its messages, and a probe executed with the tree under
+translation asks the real constructor and the real setter at every candidate, between neighbours, beyond both ends,
+at `nan` and `±inf`.  The accepted set of each path is written into `Generated/C12.lean` as a `Cond`
+(`not (union of accepted intervals)`; `union of refused intervals` when `nan` is accepted).  A rewrite of the source
+that keeps the behaviour keeps the table; a changed bound, a dropped or a truthiness-guarded check changes it.
+(The syntax types `Cmp`, `Term`, `Cond`, `Entry` are declared in the generated file, which cannot import this one.)
 
 Values are `Num`: a finite rational (every int and every finite double is one), `nan`, `+inf`, `-inf`, with
-IEEE comparison semantics (every ordered comparison with `nan` is false) and Python truthiness
-(`0`, `0.0`, `-0.0` falsy; `nan`, `±inf` truthy).  `raises c x` evaluates the test; the setter / constructor
-stores the value iff it does not raise.  On numbers `x is not None` and `isinstance(x, int|float)` are true.
+IEEE comparison semantics (every ordered comparison with `nan` is false) and Python truthiness.  `raises c x`
+evaluates the condition; the setter / constructor stores the value iff it does not raise.  Settings declared `int`
+(`intOnlyFields`, from the signatures) are probed at integers only and their intervals have closed integer ends: for
+them the theorems speak about integers (`intDomain`).
 
 ## Specification
 
@@ -131,8 +127,9 @@ def rangeCond (r : Range) : Cond :=
 
 /-- The statement's table: class, field ↦ documented range. -/
 def specOf : String → String → Option Range
-  | "Geometry", "row" => some ⟨0, true, none⟩
-  | "Geometry", "col" => some ⟨0, true, none⟩
+  -- array sizes are integers: "strictly greater than 0" is "at least 1"
+  | "Geometry", "row" => some ⟨1, false, none⟩
+  | "Geometry", "col" => some ⟨1, false, none⟩
   | "Geometry", "total_thickness" => some ⟨0, false, some 10000⟩
   | "Geometry", "pixel_vert_size" => some ⟨0, false, some 1000⟩
   | "Geometry", "pixel_horz_size" => some ⟨0, false, some 1000⟩
@@ -157,6 +154,7 @@ def specOf : String → String → Option Range
   | "Algorithm", "generations" => some ⟨1, false, some 100000⟩
   | "Algorithm", "population_size" => some ⟨1, false, some 100000⟩
   | "Algorithm", "variant" => some ⟨1, false, some 18⟩
+  | "Algorithm", "variant_adptv" => some ⟨1, false, some 2⟩
   | "Algorithm", "cr" => some ⟨0, false, some 1⟩
   | "Algorithm", "m" => some ⟨0, false, some 1⟩
   | _, _ => none
@@ -173,7 +171,7 @@ def specFields : List (String × String) :=
    ("APDCharacteristics", "adc_bit_resolution"), ("APDCharacteristics", "avalanche_gain"),
    ("Calibration", "pygmo_seed"), ("Calibration", "num_islands"), ("Calibration", "num_best_decisions"),
    ("Algorithm", "generations"), ("Algorithm", "population_size"), ("Algorithm", "variant"),
-   ("Algorithm", "cr"), ("Algorithm", "m")]
+   ("Algorithm", "variant_adptv"), ("Algorithm", "cr"), ("Algorithm", "m")]
 
 /-- The array sizes are integers in every use; the statement says nothing about a `nan` row count
 (`nan <= 0` is false, so the code lets it through on both paths).  For these fields `nan` is outside the
